@@ -296,6 +296,22 @@ func (g *gen) query(t *rapid.T) qref.Query {
 	return q
 }
 
+// seedAllSeries writes one row per series before the first query: a tag predicate evaluated before a series was first written may be
+// answered from the index's tag-filter cache for some seconds afterwards (visibility lag of new series, not part of the property).
+func seedAllSeries(t *rapid.T, w *world, g *gen) {
+	g.request++
+	var ps []hist.PointJ
+	for si := range tagSets {
+		p := hist.PointJ{Mst: mst, Tags: tagSets[si], T: 63, Fields: map[string]string{}}
+		v := rapid.IntRange(-4, 12).Draw(t, "seedVal")
+		p.Fields["i"], p.Fields["f"], p.Fields["s"], p.Fields["b"] = fmt.Sprint(v), fmt.Sprintf("%g", float64(v)/4), fmt.Sprintf("v%d", v), fmt.Sprint(v%2 == 0)
+		g.written[fmt.Sprintf("%v|%d", p.Tags, p.T)] = g.request
+		g.times[p.T] = true
+		ps = append(ps, p)
+	}
+	w.exec(Op{Kind: "write", Points: ps})
+}
+
 func runCase(t *rapid.T, c *ev.Case)      { runCaseMode(t, c, false, false) }
 func runDenseCase(t *rapid.T, c *ev.Case) { runCaseMode(t, c, true, false) }
 func runLayerCase(t *rapid.T, c *ev.Case) { runCaseMode(t, c, false, true) }
@@ -508,6 +524,7 @@ func runCaseMode(t *rapid.T, c *ev.Case, dense, layers bool) {
 		// chunks of several segments: 2-3 flushed generations of consecutive rows per series, the last one optionally left in the
 		// memtable, optionally late rows and a merge / compaction pass; no (series,time) is written twice
 		g.noOverwrite, w.noOverwrite = true, true
+		seedAllSeries(t, w, g)
 		nser := rapid.IntRange(1, 3).Draw(t, "nser")
 		ngen := rapid.IntRange(1, 3).Draw(t, "ngen")
 		for gi := 0; gi < ngen && g.cursor < 52; gi++ {
@@ -530,6 +547,7 @@ func runCaseMode(t *rapid.T, c *ev.Case, dense, layers bool) {
 		finish()
 		return
 	}
+	seedAllSeries(t, w, g)
 	for i := 0; i < rapid.IntRange(1, 3).Draw(t, "w1"); i++ {
 		w.exec(Op{Kind: "write", Points: g.batch(t, rapid.IntRange(10, 40).Draw(t, "n"), false)})
 	}
